@@ -177,16 +177,17 @@ def _lzma2_dict_size(code: int) -> int:
     return (2 | (code & 1)) << (code // 2 + 11)
 
 
-def _compress(method: str, raw: bytes) -> tuple[bytes, bytes | None, bytes]:
+def _compress(method: str, raw: bytes, dict_size: int | None = None) -> tuple[bytes, bytes | None, bytes]:
     """-> (coder id, coder properties or None, packed bytes)"""
+    DICT = dict_size or DICT_SIZE
     if method == "copy":
         return ID_COPY, None, raw
     if method == "lzma":
-        props = bytes([(LZMA_PB * 5 + LZMA_LP) * 9 + LZMA_LC]) + struct.pack("<I", DICT_SIZE)
-        filt = {"id": lzma.FILTER_LZMA1, "dict_size": DICT_SIZE, "lc": LZMA_LC, "lp": LZMA_LP, "pb": LZMA_PB}
+        props = bytes([(LZMA_PB * 5 + LZMA_LP) * 9 + LZMA_LC]) + struct.pack("<I", DICT)
+        filt = {"id": lzma.FILTER_LZMA1, "dict_size": DICT, "lc": LZMA_LC, "lp": LZMA_LP, "pb": LZMA_PB}
         return ID_LZMA, props, lzma.compress(raw, format=lzma.FORMAT_RAW, filters=[filt])
     if method == "lzma2":
-        code = _lzma2_dict_code(DICT_SIZE)
+        code = _lzma2_dict_code(DICT)
         filt = {"id": lzma.FILTER_LZMA2, "dict_size": _lzma2_dict_size(code),
                 "lc": LZMA_LC, "lp": LZMA_LP, "pb": LZMA_PB}
         return ID_LZMA2, bytes([code]), lzma.compress(raw, format=lzma.FORMAT_RAW, filters=[filt])
@@ -211,9 +212,9 @@ class _WFolder(NamedTuple):
     crc: int | None               # folder-level CRC of the unpacked data, when declared
 
 
-def _make_folder(files: list[bytes], method: str, aes_marker: bool, crc: bool) -> _WFolder:
+def _make_folder(files: list[bytes], method: str, aes_marker: bool, crc: bool, dict_size: int | None = None) -> _WFolder:
     raw = b"".join(files)
-    coder_id, props, packed = _compress(method, raw)
+    coder_id, props, packed = _compress(method, raw, dict_size)
     # The folder CRC is declared when it is the only place to put it (a single substream); for a folder with
     # several substreams the CRCs go into SubStreamsInfo instead and the folder CRC stays undefined.
     folder_crc = crc32(raw) if crc and len(files) == 1 else None
@@ -302,7 +303,7 @@ def _files_info(members: list[Member], with_attributes: bool, with_mtime: bool) 
 
 def write_7z(members: list[Member], *, method: str = "copy", layout: str = "solid",
              encode_header: bool = False, aes_marker: bool = False, aes_header: bool | str = False,
-             with_attributes: bool = True, with_mtime: bool = True, crc: bool = True, declared_sizes: dict | None = None) -> bytes:
+             with_attributes: bool = True, with_mtime: bool = True, crc: bool = True, declared_sizes: dict | None = None, dict_size: int | None = None) -> bytes:
     """Serialize `members` into a 7z archive.  See the module docstring for the byte layout.
 
     layout: "solid"    one folder holding every non-empty file as a substream
@@ -325,7 +326,7 @@ def write_7z(members: list[Member], *, method: str = "copy", layout: str = "soli
         return _signature_header(0, 0, 0)
 
     streams = [m.data for m in members if m.data and not m.is_dir]
-    folders = [_make_folder(files, method, aes_marker, crc) for files in _split(streams, layout)]
+    folders = [_make_folder(files, method, aes_marker, crc, dict_size) for files in _split(streams, layout)]
     packed = b"".join(f.packed for f in folders)
     if declared_sizes:
         # forged header: folder i declares another unpack size than its stream really has (the packed bytes stay as they are)
